@@ -147,6 +147,7 @@ def gen_c14(r, count, tier):
 
 
 CHILD = {
+    "noread-flood1": ["close 0", "writeforever 1", "exit 0"],
     "exit": ["exit 0"],
     "late": ["sleep 150", "exit 3"],
     "readeof": ["readeof", "exit 0"],
@@ -182,6 +183,10 @@ def gen_c12(r, count, tier):
         single.append(("join", "late", "drop", det, {}))
         single.append(("capture", "burst1", "drop", det, {}))
         single.append(("capture", "late", "drop", det, {}))
+        # the error path of capture: the child never reads the input it is fed (the write fails with EPIPE) and either
+        # is gone already or keeps writing output
+        single.append(("capture", "exit", "drop", det, {"pstdin": "data", "data": b"i" * 300000, "expect_err": 32}))
+        single.append(("capture", "noread-flood1", "drop", det, {"pstdin": "data", "data": b"i" * 300000, "expect_err": 32}))
     # (the held child must not keep the orchestrator's own pipes open: its output goes to /dev/null)
     single.append(("popen", "hold", "drop", True, {"pstdout": "null", "pstderr": "null"}))
     q = 0
@@ -205,6 +210,7 @@ def gen_c12(r, count, tier):
             pl.append(("popen", ["late"] + ["exit"] * (n - 1), "drop", det, {"pstdout": "null"}))
             pl.append(("join", ["late"] + ["filter"] * (n - 1), "drop", det, {"pstdout": "null"}))
             pl.append(("capture", ["burst1"] + ["filter"] * (n - 1), "drop", det, {}))
+            pl.append(("capture", ["noread-flood1"] + ["filter"] * (n - 1), "drop", det, {"pstdin": "data", "data": b"i" * 300000, "expect_err": 32}))
     for (term, kids, after, det, extra) in pl:
         t = {"id": "c12-%d" % q, "kind": "pipeline", "n": len(kids), "term": term, "after": after, "detached": det, "child": kids,
              "stub": [CHILD[k] for k in kids], "shape": r.choice(["left", "iter"]), "stderr_to": False, "watchdog": 12}
@@ -586,11 +592,18 @@ def judge_c12(chk, s, mline):
     bad, tie = [], []
     det = t.get("detached")
     res = out_field(s, "term")
+    term = t["term"]
+    z = zombies(s)
+    if t.get("expect_err") is not None:
+        # the call fails (broken pipe); whatever it started must be reaped all the same
+        if res is None or not (res.startswith("err io:%d" % t["expect_err"]) or res.startswith("ok")):
+            bad.append("the terminator returned %s, expected the broken-pipe error" % res)
+        if not det and z is not None and (z[0] or z[1]):
+            bad.append("after the failed %s %d zombie(s) and %d running child(ren) remain" % (term, z[0], z[1]))
+        return bad, tie
     if res is None or not res.startswith("ok"):
         bad.append("the terminator did not succeed: %s" % res)
         return bad, tie
-    term = t["term"]
-    z = zombies(s)
     dropped = out_field(s, "dropped_ms")
     if term in ("popen", "stream_stdout", "stream_stderr", "stream_stdin") and dropped is None:
         bad.append("the handle was never dropped")
